@@ -701,12 +701,12 @@ pub fn sites() -> Vec<Site> {
         main_only(format!("{}#d8 1\n", bankdef(&format!(" bits = 8\n addr = 0\n size = {}\n outp = 0\n fill = true", m.e()))), exp)
     }));
     // a bank whose address unit is wider than a byte: its size in bits is units x unit width, and that is what has to
-    // fit; a second bank makes the size take part in sums with output positions
-    v.push(site("bankdef-size-wide-unit-two-banks", Value, "#bankdef a { bits = 256, addr = 0, size = N, outp = 8 * 0x100 } / #bankdef b { bits = 8, addr = 0, size = 1, outp = 0 } / #d8 1", |m| {
-        main_only(format!("{}#bankdef b {{\n bits = 8\n addr = 0\n size = 1\n outp = 0\n}}\n#d8 1\n", bankdef(&format!(" bits = 256\n addr = 0\n size = {}\n outp = 8 * 0x100", m.e()))), Expect::None)
+    // fit (the unit count is N << 24, so that the ladder reaches the sizes between 2^56 and 2^64 bits); a second bank makes the size take part in sums with output positions
+    v.push(site("bankdef-size-wide-unit-two-banks", Value, "#bankdef a { bits = 256, addr = 0, size = N << 24, outp = 8 * 0x1_0000_0000 } / #bankdef b { bits = 8, addr = 0, size = 1, outp = 0 } / #d8 1", |m| {
+        main_only(format!("{}#bankdef b {{\n bits = 8\n addr = 0\n size = 1\n outp = 0\n}}\n#d8 1\n", bankdef(&format!(" bits = 256\n addr = 0\n size = {} << 24\n outp = 8 * 0x1_0000_0000", m.e()))), Expect::None)
     }));
-    v.push(site("bankdef-addr_end-wide-unit-two-banks", Value, "#bankdef a { bits = 256, addr = 0, addr_end = N, outp = 8 * 0x100 } / #bankdef b { bits = 8, addr = 0, size = 1, outp = 0 } / #d8 1", |m| {
-        main_only(format!("{}#bankdef b {{\n bits = 8\n addr = 0\n size = 1\n outp = 0\n}}\n#d8 1\n", bankdef(&format!(" bits = 256\n addr = 0\n addr_end = {}\n outp = 8 * 0x100", m.e()))), Expect::None)
+    v.push(site("bankdef-addr_end-wide-unit-two-banks", Value, "#bankdef a { bits = 256, addr = 0, addr_end = N << 24, outp = 8 * 0x1_0000_0000 } / #bankdef b { bits = 8, addr = 0, size = 1, outp = 0 } / #d8 1", |m| {
+        main_only(format!("{}#bankdef b {{\n bits = 8\n addr = 0\n size = 1\n outp = 0\n}}\n#d8 1\n", bankdef(&format!(" bits = 256\n addr = 0\n addr_end = {} << 24\n outp = 8 * 0x1_0000_0000", m.e()))), Expect::None)
     }));
     v.push(site("bankdef-addr_end", Value, "#bankdef a { bits = 8, addr = 0, addr_end = N, outp = 0 } / #d8 1", |m| {
         let exp = if *m.z() >= Z::from(1) { exact(&[1]) } else { Expect::None };
